@@ -98,17 +98,17 @@ def ef2(facts, rep):
 
 
 PO5_AUDIT = {
-    'pattern_matching::myers::helpers::word_size|overflow-mul|mem::size_of(),8':
+    'pattern_matching::myers::helpers::word_size|overflow-mul|8,mem::size_of()':
         'size_of of a machine word type (<= 16) times 8',
     'pattern_matching::myers::helpers::ceil_div|remzero|arg1':
         'callers pass y = word_size::<T>() >= 8',
-    'pattern_matching::myers::helpers::ceil_div|overflow-add|Div(arg1,arg2),1':
+    'pattern_matching::myers::helpers::ceil_div|overflow-add|1,Div(arg1,arg2)':
         'x / y + 1 <= x for y >= 2 (word size >= 8)',
     'pattern_matching::myers::long::States::<T>::new|overflow-sub|helpers::ceil_div(arg1,helpers::word_size()),1':
         'm >= 1 is asserted by Myers::new (non-empty pattern), so ceil_div(m, w) >= 1',
     'pattern_matching::myers::long::States::<T>::new|remzero|arg1':
         'w = word_size::<T>() >= 8',
-    'pattern_matching::myers::long::States::<T>::add_state|unwrap|unwrap(ToPrimitive>::to_usize(num::wrapping_add(num::wrapping_add(x0,x1),arg2)))<usize>':
+    'pattern_matching::myers::long::States::<T>::add_state|unwrap|unwrap(ToPrimitive>::to_usize(num::wrapping_add(arg2,num::wrapping_add(x0,x1))))<usize>':
         'usize::to_usize is the identity and always Some',
     'pattern_matching::myers::long::States::<T>::step|overflow-sub|Vec::len(arg1.states),1':
         'States::new adds at least one block (min_blocks >= 1) and step truncates to last_block + 1 >= 1',
@@ -116,7 +116,7 @@ PO5_AUDIT = {
         'last_block < states.len(): it starts at len - 1, is incremented only together with add_state and decremented only while > 0',
     'pattern_matching::myers::long::States::<T>::step|overflow-sub|Index<I>>::index(arg1.states,x0).dist,x1':
         'isize difference of a block distance (<= pattern length + text position) and a carry in {-1,0,1}',
-    'pattern_matching::myers::long::States::<T>::step|bounds|idx=Add(x0,1).0,len=PtrMetadata(arg3)':
+    'pattern_matching::myers::long::States::<T>::step|bounds|idx=Add(1,x0).0,len=PtrMetadata(arg3)':
         'guarded by last_block < self.max_block and peq has max_block + 1 entries (one per block)',
     'pattern_matching::myers::long::States::<T>::step|overflow_neg|x0':
         'carry is in {-1, 0, 1}',
